@@ -107,7 +107,7 @@ impl Monitor for C18 {
                 if *expires != Exp::None {
                     e.exp = *expires;
                     e.amount += *amount;
-                } else if lapsed {
+                } else if lapsed || e.amount == 0 {
                     // an increase without a deadline on a grant that has already lapsed: cw20 keeps the grant lapsed
                     // (old amount + new, old deadline); a token may as well start a fresh grant of the new amount
                     // without a deadline - the owner asked for exactly that. Both are within "the unexpired allowance
@@ -117,7 +117,9 @@ impl Monitor for C18 {
                         .q::<AllowanceResponse, _>(tok.addr(), &Cw20QueryMsg::Allowance { owner: owner.clone(), spender: spender.clone() })
                         .map(|r| r.allowance.u128() <= *amount && matches!(r.expires, cw20::Expiration::Never {}))
                         .unwrap_or(false);
-                    if fresh && e.amount > 0 {
+                    // (also when the old grant had been used up: a token may delete an exhausted grant, the next
+                    // increase then starts a new one)
+                    if fresh {
                         e.amount = *amount;
                         e.exp = Exp::Never;
                         out.count("c18.lapsed_grants_restarted");
